@@ -197,9 +197,13 @@ fn c09_keys() -> Vec<String> {
 /// situations, a free hole, and a last region.
 struct World {
     db: Database,
+    /// compressed vectors (100 stored values in a raw partial page) for the vector operations
+    vecs: Vec<Option<PcoVec<usize, u64>>>,
+    ros: Vec<<PcoVec<usize, u64> as StoredVec>::ReadOnly>,
+    raws: Vec<Option<BytesVec<usize, u64>>>,
 }
 
-fn world(tmp: &TempDir, min_len: usize) -> Option<World> {
+fn world(tmp: &TempDir, min_len: usize, with_vecs: bool) -> Option<World> {
     let db = if min_len == 0 { Database::open(tmp.path()).ok()? } else { Database::open_with_min_len(tmp.path(), min_len).ok()? };
     // layout: a(4K) | hole(4K, from removed x) | b(8K reserve, len 100) | c(4K) | d(4K) | e(4K) | last(4K)
     let mk = |n: &str, len: usize, serial: u64| -> Option<Region> {
@@ -216,14 +220,32 @@ fn world(tmp: &TempDir, min_len: usize) -> Option<World> {
     mk("e", 500, 6)?;
     mk("last", 700, 7)?;
     x.remove().ok()?;
+    let mut vecs = vec![];
+    let mut ros = vec![];
+    let mut raws = vec![];
+    for k in 0..if with_vecs { 3 } else { 0 } {
+        let mut v: PcoVec<usize, u64> = PcoVec::forced_import(&db, &format!("vc{k}"), Version::new(1)).ok()?;
+        for i in 0..100 {
+            v.push(val(i));
+        }
+        v.write().ok()?;
+        ros.push(v.read_only_clone());
+        vecs.push(Some(v));
+        let mut r: BytesVec<usize, u64> = BytesVec::forced_import(&db, &format!("vr{k}"), Version::new(1)).ok()?;
+        for i in 0..100 {
+            r.push(val(i));
+        }
+        r.write().ok()?;
+        raws.push(Some(r));
+    }
     db.flush().ok()?; // promotes x's extent to a reusable hole
-    Some(World { db })
+    Some(World { db, vecs, ros, raws })
 }
 
 /// One catalogue operation as a job on the shared world. `slot` makes the regions used by two
 /// instances of the same operation distinct.
-fn raw_op(db: &Database, op: &str, slot: usize) -> Option<Job> {
-    let db = db.clone();
+fn raw_op(w: &mut World, op: &str, slot: usize) -> Option<Job> {
+    let db = w.db.clone();
     let names = ["a", "c", "d", "e"];
     let own = names[slot % names.len()].to_string();
     let job: Job = match op {
@@ -289,8 +311,47 @@ fn raw_op(db: &Database, op: &str, slot: usize) -> Option<Job> {
             drop(rd);
             let _ = n;
         }),
+        "vec_write_fast" | "vec_write_slow" | "vec_write_many_pages" => {
+            // the first vector writer of a scenario gets vector 0, the one the readers read
+            let mut v = w.vecs.iter_mut().find(|v| v.is_some())?.take()?;
+            let n = match op {
+                "vec_write_fast" => 20,
+                "vec_write_slow" => 3000,
+                _ => 600_000, // > 256 pages: the page-index region outgrows its first page
+            };
+            Box::new(move || {
+                for i in 100..100 + n {
+                    v.push(val(i));
+                }
+                let _ = v.write();
+            })
+        }
+        "vec_read" | "vec_read_io" => {
+            let ro = w.ros[0].clone();
+            let io = op == "vec_read_io";
+            Box::new(move || {
+                if io {
+                    vecdb::verif::set_mmap_crossover_bytes(0);
+                }
+                let len = ro.len();
+                let got = ro.collect_range_at(0, len);
+                if io {
+                    vecdb::verif::reset_knobs();
+                }
+                let _ = got;
+            })
+        }
+        "raw_vec_write" => {
+            let mut v = w.raws.iter_mut().find(|v| v.is_some())?.take()?;
+            Box::new(move || {
+                for i in 100..3000 {
+                    v.push(val(i));
+                }
+                let _ = v.write();
+            })
+        }
         "retain" => Box::new(move || {
-            let keep: std::collections::HashSet<String> = db.regions().id_to_index().keys().filter(|k| !k.starts_with('e')).cloned().collect();
+            let keep: std::collections::HashSet<String> = db.regions().id_to_index().keys().filter(|k| !k.starts_with('e') || k.len() > 1).cloned().collect();
             let _ = db.retain_regions(keep);
         }),
         _ => return None,
@@ -298,14 +359,14 @@ fn raw_op(db: &Database, op: &str, slot: usize) -> Option<Job> {
     Some(job)
 }
 
-const RAW_OPS: [&str; 14] = ["write_fits", "write_relocate", "write_extend_last", "write_at", "truncate", "rename", "remove_create", "create", "region_flush", "db_flush", "compact", "bg_compact", "reader", "retain"];
+const RAW_OPS: [&str; 20] = ["write_fits", "write_relocate", "write_extend_last", "write_at", "truncate", "rename", "remove_create", "create", "region_flush", "db_flush", "compact", "bg_compact", "reader", "retain", "vec_write_fast", "vec_write_slow", "vec_write_many_pages", "vec_read", "vec_read_io", "raw_vec_write"];
 
 fn c11_build(ops: &[&str]) -> Option<Scn> {
     let tmp = TempDir::new("c11");
-    let w = world(&tmp, 0)?;
+    let mut w = world(&tmp, 0, ops.iter().any(|o| o.contains("vec")))?;
     let mut jobs = vec![];
     for (k, op) in ops.iter().enumerate() {
-        jobs.push((format!("{op}#{k}"), raw_op(&w.db, op, k)?));
+        jobs.push((format!("{op}#{k}"), raw_op(&mut w, op, k)?));
     }
     let db = w.db.clone();
     let check = Box::new(move || check_layout(&db).map(|_| ()).map_err(|e| format!("extent invariant broken at quiescence: {e}")));
@@ -321,7 +382,7 @@ fn c10_build(kind: &str) -> Option<Scn> {
     match kind {
         // two (three) threads work on their own regions through every placement path
         "isolation2" | "isolation3" => {
-            let w = world(&tmp, 0)?;
+            let w = world(&tmp, 0, false)?;
             let n = if kind == "isolation2" { 2 } else { 3 };
             let mut jobs: Vec<(String, Job)> = vec![];
             let expected: Arc<Mutex<BTreeMap<String, Vec<u8>>>> = Arc::new(Mutex::new(BTreeMap::new()));
@@ -455,7 +516,7 @@ fn c10_build(kind: &str) -> Option<Scn> {
 
 fn c12_build(kind: &str) -> Option<Scn> {
     let tmp = TempDir::new("c12");
-    let w = world(&tmp, 0)?;
+    let w = world(&tmp, 0, false)?;
     let db = w.db.clone();
     let (region, append): (&str, usize) = match kind {
         "append_into_reserve" => ("b", 5000),
@@ -822,7 +883,7 @@ pub fn check_c11(ctx: &Ctx) -> i32 {
             pairs.push(format!("c11|{}|{}", RAW_OPS[i], RAW_OPS[j]));
         }
     }
-    let pair_budget = (deadline - ctx.elapsed()) * 0.5;
+    let pair_budget = (deadline - ctx.elapsed()) * 0.45;
     let t_pairs = ctx.elapsed() + pair_budget;
     let per = pair_budget / pairs.len() as f64;
     for key in &pairs {
@@ -830,7 +891,7 @@ pub fn check_c11(ctx: &Ctx) -> i32 {
             report.inconclusive(format!("pair exploration stopped before {key}"));
             break;
         }
-        let ex = explore(key, Mode::Dfs { max_preempt: ctx.pick(1, 2), max_runs: ctx.pick(40, 600) }, ctx.elapsed() + per * 2.0, ctx);
+        let ex = explore(key, Mode::Dfs { max_preempt: ctx.pick(1, 2), max_runs: ctx.pick(24, 600) }, ctx.elapsed() + per * 2.0, ctx);
         agg.absorb(ctx, &report, "C11", key, ex, true);
     }
     agg.stats.add("pairs_explored", agg.scenarios);
@@ -896,8 +957,23 @@ pub fn check_c11(ctx: &Ctx) -> i32 {
         eprintln!("directed triples: {directed:?}");
     }
     let before_directed = agg.scenarios;
-    let directed_deadline = ctx.elapsed() + (deadline - ctx.elapsed()) * 0.6;
-    for (key, (x, _m1, y, m2, _m3, m4, wclass)) in &directed {
+    let directed_deadline = ctx.elapsed() + (deadline - ctx.elapsed()) * 0.7;
+    // one candidate of every cycle shape first, then the second of every shape, ...
+    let mut buckets: BTreeMap<String, Vec<&(String, (String, char, String, char, char, char, String))>> = BTreeMap::new();
+    for d in &directed {
+        let (x, m1, y, m2, m3, m4, w) = &d.1;
+        buckets.entry(format!("{x}{m1}{y}{m2}{m3}{m4}{w}")).or_default().push(d);
+    }
+    let mut ordered = vec![];
+    let depth = buckets.values().map(|b| b.len()).max().unwrap_or(0);
+    for i in 0..depth {
+        for b in buckets.values() {
+            if let Some(d) = b.get(i) {
+                ordered.push(*d);
+            }
+        }
+    }
+    for (key, (x, _m1, y, m2, _m3, m4, wclass)) in ordered {
         if ctx.elapsed() > directed_deadline || report.failures_seen() >= 8 {
             break;
         }
@@ -915,7 +991,7 @@ pub fn check_c11(ctx: &Ctx) -> i32 {
         let ex = explore(key, Mode::Guided(plans), directed_deadline, ctx);
         agg.absorb(ctx, &report, "C11", key, ex, true);
         // plus a sample of undirected schedules of the same triple
-        let ex = explore(key, Mode::Mixed { random_first: ctx.pick(10, 100), seed: rng.next_u64(), max_preempt: 2, max_runs: ctx.pick(60, 1500) }, directed_deadline, ctx);
+        let ex = explore(key, Mode::Mixed { random_first: ctx.pick(6, 100), seed: rng.next_u64(), max_preempt: 2, max_runs: ctx.pick(0, 1500) }, directed_deadline, ctx);
         agg.absorb(ctx, &report, "C11", key, ex, true);
     }
     let directed_done = agg.scenarios - before_directed;
